@@ -94,7 +94,7 @@ var entryPoints = []roEntry{
 		}
 		return sb.String() + "|" + exifOutcome(ir.Exif, nil) + fmt.Sprintf("|xmp=%d|prev=%x", xlen, pr.PreviewImage)
 	}},
-	{"xmp.ParseXmp", "xmp", false, func(r *envio.Reader) string {
+	{"xmp.ParseXmp", "xmp", true, func(r *envio.Reader) string {
 		x, err := xmp.ParseXmp(r)
 		return obs.Flatten(x).String() + "|err=" + errStr(err)
 	}},
